@@ -105,46 +105,95 @@ def cast_chain(n):
             return None, None
 
 
+def assignments(fnode):
+    """(variable, right-hand side) of every `v = e;` and of every initialised declaration `T v = e;` in a function"""
+    for n in walk(fnode):
+        if n.get("kind") == "BinaryOperator" and n.get("opcode") == "=":
+            lv = var_of(n["inner"][0])
+            if lv:
+                yield lv, n["inner"][1]
+        elif n.get("kind") == "VarDecl" and n.get("init") and n.get("inner"):
+            ex = [c for c in n["inner"] if isinstance(c, dict) and (c.get("kind", "").endswith("Expr") or c.get("kind", "").endswith("Literal") or c.get("kind", "").endswith("Operator"))]
+            if ex and "name" in n:
+                yield n["name"], ex[-1]
+
+
+def with_static_helpers(tu, fn):
+    """the function and the file-local static functions it calls (transitively): {name: node}, and the parameter bindings
+    [((helper, parameter), (caller, argument variable))] of those calls whose argument is a plain variable"""
+    fns = functions(tu)
+    if fn not in fns:
+        return {}, []
+    statics = {k: v for k, v in fns.items() if v.get("storageClass") == "static"}
+    group, binds, todo = {fn: fns[fn]}, [], [fn]
+    while todo:
+        cur = todo.pop()
+        for n in walk(group[cur]):
+            if n.get("kind") != "CallExpr":
+                continue
+            cal = callee_name(n)
+            if cal in statics:
+                params = [c["name"] for c in statics[cal].get("inner", []) if c.get("kind") == "ParmVarDecl" and "name" in c]
+                for pn, arg in zip(params, n["inner"][1:]):
+                    av = var_of(arg)
+                    if av:
+                        binds.append(((cal, pn), (cur, av)))
+                if cal not in group:
+                    group[cal] = statics[cal]
+                    todo.append(cal)
+    return group, binds
+
+
 def uid_filter_facts(run, rel, fn, notes):
-    """id query, conversion function, cast chain (ending with the type of the compared variable) of a list filter"""
+    """id query, conversion function, cast chain (ending with the type of the compared variable) of a list filter.
+    Looks through file-local static helpers (a parameter is the variable passed for it) and treats an initialised declaration
+    like an assignment, so that extracting the membership loop or merging declaration and assignment changes nothing."""
     out = {"query": "QOther", "conv": "ConvOther", "casts": []}
     tu = clang_ast(run, rel)
-    f = functions(tu).get(fn)
-    if not f:
+    group, binds = with_static_helpers(tu, fn)
+    if not group:
         notes.append("translator: %s not found" % fn)
         return out
-    calls = [callee_name(n) for n in walk(f) if n.get("kind") == "CallExpr"]
+    # variables are (function, name); a helper's parameter belongs to the class of the variable passed for it
+    parent = {}
+
+    def find(x):
+        while parent.get(x, x) != x:
+            x = parent[x]
+        return x
+    for a, b in binds:
+        parent[find(a)] = find(b)
+    vtypes = {}
+    for g, node in group.items():
+        for n in walk(node):
+            if n.get("kind") in ("VarDecl", "ParmVarDecl") and "name" in n:
+                vtypes[(g, n["name"])] = dtype(n)
+    calls = [callee_name(n) for node in group.values() for n in walk(node) if n.get("kind") == "CallExpr"]
     idq = sorted(set(c for c in calls if c and IDQ_FAMILY.match(c)))
-    # variables and their declared types
-    vtypes = {n["name"]: dtype(n) for n in walk(f) if n.get("kind") == "VarDecl" and "name" in n}
     # the id query must be stored unconverted in an unsigned 32-bit variable
-    cur = None
-    for n in walk(f):
-        if n.get("kind") == "BinaryOperator" and n.get("opcode") == "=":
-            lhs, rhs = n["inner"]
-            lv = var_of(lhs)
+    cur = item = None
+    for g, node in group.items():
+        for lv, rhs in assignments(node):
             ch, cal = cast_chain(rhs)
-            if lv and cal in IDQ and ch == [] and INT_TYPES.get(vtypes.get(lv)) == ("u", 32):
-                cur = (lv, cal)
+            if cal in IDQ and ch == [] and INT_TYPES.get(vtypes.get((g, lv))) == ("u", 32):
+                cur = ((g, lv), cal)
+            elif ch is not None and cal and cal not in IDQ and (cal in CONV or cal.startswith("strto") or cal.startswith("ato")):
+                item = ((g, lv), ch, cal)       # the converted item: <var> = casts(conv(...))
     if len(idq) == 1 and cur and cur[1] == idq[0]:
         out["query"] = IDQ[idq[0]]
     else:
-        notes.append("translator: %s: id query not recognised (calls %s)" % (fn, idq))
-    # the converted item: <var> = casts(conv(...)), compared by == with the id variable, nothing else converted
-    item = None
-    for n in walk(f):
-        if n.get("kind") == "BinaryOperator" and n.get("opcode") == "=":
-            lhs, rhs = n["inner"]
-            lv = var_of(lhs)
-            ch, cal = cast_chain(rhs)
-            if lv and ch is not None and cal and cal not in IDQ and (cal in CONV or cal.startswith("strto") or cal.startswith("ato")):
-                item = (lv, ch, cal)
-    eqs = [n for n in walk(f) if n.get("kind") == "BinaryOperator" and n.get("opcode") in ("==", "!=", "<", ">", "<=", ">=")]
+        notes.append("translator: %s: id query not recognised (calls %s; expected one of getuid/geteuid stored unconverted in a uid_t variable)" % (fn, idq))
+    # ... compared by == with (a variable standing for) the id variable, both of the same type
     cmp_ok = False
-    for n in eqs:
-        a, b = var_of(n["inner"][0]), var_of(n["inner"][1])
-        if item and cur and n.get("opcode") == "==" and {a, b} == {item[0], cur[0]} and vtypes.get(item[0]) == vtypes.get(cur[0]):
-            cmp_ok = True
+    if item and cur:
+        for g, node in group.items():
+            for n in walk(node):
+                if n.get("kind") == "BinaryOperator" and n.get("opcode") == "==":
+                    a, b = var_of(n["inner"][0]), var_of(n["inner"][1])
+                    if a and b:
+                        ca, cb = find((g, a)), find((g, b))
+                        if {ca, cb} == {find(item[0]), find(cur[0])} and ca != cb and vtypes.get((g, a)) == vtypes.get((g, b)):
+                            cmp_ok = True
     if item and cmp_ok:
         out["conv"] = CONV.get(item[2], "ConvOther")
         vt = INT_TYPES.get(vtypes.get(item[0]))
@@ -154,7 +203,8 @@ def uid_filter_facts(run, rel, fn, notes):
             chain.append(vt)
         out["casts"] = chain
     else:
-        notes.append("translator: %s: conversion/comparison pattern not recognised" % fn)
+        notes.append("translator: %s: statement `<uid_t variable> = (casts) atol(<item>)` compared with == to the id variable not recognised%s"
+                     % (fn, "" if item else " (no conversion call assigned to a variable)"))
     return out
 
 
@@ -196,27 +246,58 @@ def tr_filter(run):
 
     def val(expr):
         return cpp_value(run, expr, includes=inc) if expr else None
-    m = re.search(r"char\s+filterChainCopy\s*\[([^\]]+)\]", body)
-    v["chain_max"] = val(m.group(1)) if m else None
-    m = re.search(r"strncpy\s*\(\s*filterChainCopy\s*,\s*filterChain\s*,\s*([^;]+?)\)\s*;", body)
-    v["copy_n"] = val(m.group(1)) if m else None
-    m = re.search(r"filterChainCopy\s*\[([^\]]+)\]\s*=\s*'\\0'\s*;", body)
+    # The statements are recognised by their SHAPE; the names of the locals are read from them (renaming a local changes nothing).
+    W, NULCH = r"(\w+)", r"(?:'\\0'|0)"
+    sig = re.search(r"snoopy_filtering_check_chain\s*\(([^)]*)\)\s*\{", src)
+    param = re.findall(r"\w+", sig.group(1))[-1] if sig and re.findall(r"\w+", sig.group(1)) else "filterChain"
+
+    def arr(name):
+        m = re.search(r"\bchar\s+" + re.escape(name) + r"\s*\[([^\]]+)\]", body) if name else None
+        return val(m.group(1)) if m else None
+    # strncpy(<copy>, <parameter>, <n>);  <copy>[<idx>] = 0;  char <copy>[<size>]
+    m = re.search(r"strncpy\s*\(\s*" + W + r"\s*,\s*" + re.escape(param) + r"\s*,\s*([^;]+?)\)\s*;", body)
+    copybuf = m.group(1) if m else None
+    v["copy_n"] = val(m.group(2)) if m else None
+    v["chain_max"] = arr(copybuf)
+    m = re.search(re.escape(copybuf) + r"\s*\[([^\]]+)\]\s*=\s*" + NULCH + r"\s*;", body) if copybuf else None
     v["term_idx"] = val(m.group(1)) if m else None
-    m = re.search(r"char\s+filterName\s*\[([^\]]+)\]", body)
-    v["name_max"] = val(m.group(1)) if m else None
-    m = re.search(r"char\s+filterArg\s*\[([^\]]+)\]", body)
-    v["arg_max"] = val(m.group(1)) if m else None
-    m = re.search(r"strtok_r\s*\(\s*str\s*,\s*" + STR + r"\s*,\s*&rest\s*\)", body)
-    v["chain_delim"] = c_unescape(m.group(1)) if m else None
-    m = re.search(r"fcPos_filterSpecArg\s*=\s*strstr\s*\(\s*filterSpec\s*,\s*" + STR + r"\s*\)", body)
-    mc = re.search(r"fcPos_filterSpecArg\s*=\s*strchr\s*\(\s*filterSpec\s*,\s*'((?:\\.|[^'\\])+)'\s*\)", body)
-    v["name_delim"] = c_unescape(m.group(1)) if m else (c_unescape(mc.group(1)) if mc else None)
-    # the name copy: k = colon - spec; strncpy(filterName, filterSpec, k); filterName[k] = 0; arg = colon + 1
-    pat = [r"filterNameSize\s*=\s*fcPos_filterSpecArg\s*-\s*filterSpec\s*;", r"strncpy\s*\(\s*filterName\s*,\s*filterSpec\s*,\s*filterNameSize\s*\)\s*;",
-           r"filterName\s*\[\s*filterNameSize\s*\]\s*=\s*'\\0'\s*;", r"filterArgPtr\s*=\s*fcPos_filterSpecArg\s*\+\s*1\s*;"]
-    if not all(re.search(p, body) for p in pat):
-        notes.append("translator: filtering.c name/argument split not recognised")
-        v["name_max"] = None
+    if not copybuf:
+        notes.append("translator: filtering.c: `strncpy(<buffer>, %s, <n>)` (the chain copy) not recognised" % param)
+    # <spec> = strtok_r(<str>, ";", &<save>)
+    m = re.search(W + r"\s*=\s*strtok_r\s*\(\s*\w+\s*,\s*" + STR + r"\s*,\s*&\s*\w+\s*\)", body)
+    spec = m.group(1) if m else None
+    v["chain_delim"] = c_unescape(m.group(2)) if m else None
+    if not spec:
+        notes.append("translator: filtering.c: `<spec> = strtok_r(<str>, \";\", &<save>)` not recognised")
+    # <colon> = strstr(<spec>, ":")  |  strchr(<spec>, ':')
+    colon = None
+    if spec:
+        m = re.search(W + r"\s*=\s*strstr\s*\(\s*" + re.escape(spec) + r"\s*,\s*" + STR + r"\s*\)", body)
+        mc = re.search(W + r"\s*=\s*strchr\s*\(\s*" + re.escape(spec) + r"\s*,\s*'((?:\\.|[^'\\])+)'\s*\)", body)
+        mm = m or mc
+        colon = mm.group(1) if mm else None
+        v["name_delim"] = c_unescape(mm.group(2)) if mm else None
+    else:
+        v["name_delim"] = None
+    # the name copy: <k> = <colon> - <spec>; strncpy(<name>, <spec>, <k>); <name>[<k>] = 0; <argptr> = <colon> + 1
+    namebuf = None
+    if spec and colon:
+        mk = re.search(W + r"\s*=\s*(?:\(\s*size_t\s*\)\s*)?\(?\s*" + re.escape(colon) + r"\s*-\s*" + re.escape(spec) + r"\s*\)?\s*;", body)
+        k = mk.group(1) if mk else None
+        mn = re.search(r"strncpy\s*\(\s*" + W + r"\s*,\s*" + re.escape(spec) + r"\s*,\s*" + re.escape(k) + r"\s*\)\s*;", body) if k else None
+        namebuf = mn.group(1) if mn else None
+        ok_term = bool(namebuf and re.search(re.escape(namebuf) + r"\s*\[\s*" + re.escape(k) + r"\s*\]\s*=\s*" + NULCH + r"\s*;", body))
+        ok_arg = bool(re.search(r"\w+\s*=\s*" + re.escape(colon) + r"\s*\+\s*1\s*;", body))
+        if not (k and namebuf and ok_term and ok_arg):
+            notes.append("translator: filtering.c name/argument split not recognised: expected `<k> = %s - %s; strncpy(<name>, %s, <k>); <name>[<k>] = '\\0'; <arg> = %s + 1;` (found k=%s name=%s terminator=%s arg=%s)"
+                         % (colon, spec, spec, colon, k, namebuf, ok_term, ok_arg))
+            namebuf = None
+    else:
+        notes.append("translator: filtering.c: `<colon> = strstr(<spec>, \":\")` not recognised")
+    v["name_max"] = arr(namebuf)
+    # the buffer that holds the empty argument of an element without ':' : the other char array whose first byte is cleared
+    argbuf = [x for x in re.findall(W + r"\s*\[\s*0\s*\]\s*=\s*" + NULCH + r"\s*;", body) if x not in (namebuf, copybuf)]
+    v["arg_max"] = arr(argbuf[0]) if argbuf else None
     # INI_MAX_LINE as compiled into lib/inih
     ini = None
     for d in run.inih_defs():
@@ -245,13 +326,15 @@ def tr_filter(run):
     fr = root_facts(run, notes)
     par = strip_comments(run.src("src/util/parser.c"))
     pb = func_body(par, "snoopy_util_parser_csvToArgList") or ""
-    m1 = re.search(r"snoopy_util_string_countChars\s*\(\s*argListRaw\s*,\s*'((?:\\.|[^'\\])+)'\s*\)", pb)
-    m2 = re.search(r"strchr\s*\(\s*argListRaw_pos\s*,\s*'((?:\\.|[^'\\])+)'\s*\)", pb)
-    d = c_unescape(m1.group(1)) if m1 and m2 and m1.group(1) == m2.group(1) else b"\x00"
+    # the character counted and the character searched for must be one and the same literal (variable names are free)
+    lit = r"'((?:\\.|[^'\\])+)'"
+    m1 = re.findall(r"snoopy_util_string_countChars\s*\(\s*\w+\s*,\s*" + lit + r"\s*\)", pb)
+    m2 = re.findall(r"\bstrchr\s*\(\s*\w+\s*,\s*" + lit + r"\s*\)", pb)
+    d = c_unescape(m1[0]) if m1 and m2 and len(set(m1 + m2)) == 1 else b"\x00"
     if len(d) != 1:
         d = b"\x00"
     if d == b"\x00":
-        notes.append("translator: parser.c csv delimiter not recognised")
+        notes.append("translator: parser.c csvToArgList: `snoopy_util_string_countChars(<raw>, ',')` and `strchr(<pos>, ',')` with one and the same character literal not recognised")
     v["csv_delim"] = d
 
     def num(k, bad=0):
